@@ -9,3 +9,13 @@ def run(ctx):
     from .kernels import run_c20b
     ctx.rule("C10-f", "the Vector primitives used by the momentum map, u and V are componentwise: a+b, a−b, a·s, dot = Σ_i a_i·b_i, squared = Σ_i a_i²")
     run_c20b(ctx, "C10-f", only=("add", "sub", "mul-by-value", "mul-by-ref", "dot", "ctors"))
+
+    # the formulas above are written in the scalar type's own operations; for the f64 instantiation those are decided by C20-a — restated
+    # here for exactly the operations this code calls: a `powf` / `sqrt` / `cos` of `impl MomTropFloat for f64` that is not std's breaks
+    # this property with every anchored line untouched
+    from .restate import restate_f64_primitives
+    from .kernels import sample_world
+    def kernel(k):
+        return lambda: sample_world(ctx).roles[k]
+    restate_f64_primitives(ctx, [lambda: ctx.roles.decompose(), kernel("momenta"), kernel("shift"), kernel("uvec"), kernel("vpoly"), kernel("lmatrix")],
+                           "the momentum map, the shift, u, V, L and the decomposition")
